@@ -22,6 +22,41 @@ def gen_programs(ctx, k, depth, regs):
     return fs
 
 
+def integration(ctx, thorough):
+    """the repository's own integration programs (built but never run as tests), unmodified, recorded through an LD_PRELOAD shim of the gate API"""
+    from vlib import build
+    from vlib.common import run as sh, REPO, HARNESS
+    import json
+    lib = build.lib_build("optim")
+    inc = os.path.join(REPO, "src", "include")
+    shim = os.path.join(ctx.dir, "shim_gates.so")
+    rc, out, err = sh(["g++", "-std=gnu++11", "-O1", "-fPIC", "-shared", "-I", inc, os.path.join(HARNESS, "shim_gates.cpp"), "-L", lib, "-ltfhe-spqlios-fma", "-Wl,-rpath," + lib, "-ldl", "-o", shim])
+    if rc != 0:
+        raise CheckBroken("shim build failed: %s" % err[-800:])
+    for prog, maxev in (("test-addition-boot", 4000 if thorough else 700), ("test-long-run", 4000 if thorough else 600)):
+        exe = os.path.join(ctx.dir, prog)
+        rc, out, err = sh(["g++", "-std=gnu++11", "-O2", "-I", inc, os.path.join(REPO, "src", "test", prog + ".cpp"), "-L", lib, "-ltfhe-spqlios-fma", "-Wl,-rpath," + lib, "-o", exe])
+        if rc != 0:
+            ctx.note("integration program %s does not build: %s" % (prog, err[-200:]))
+            continue
+        tf = os.path.join(ctx.dir, prog + ".ndjson")
+        rc, out, err = sh([exe], env={"LD_PRELOAD": shim, "VH_TRACE": tf, "VH_MAXEV": str(maxev)}, timeout=1800)
+        if rc != 0 or not os.path.exists(tf):
+            ctx.violation("integration program %s died under the recording shim rc=%s" % (prog, rc), key="integration %s crash" % prog)
+            continue
+        R = 1
+        for ln in open(tf):
+            o = json.loads(ln)
+            for k in ("d", "a", "b", "c", "r"):
+                if k in o:
+                    R = max(R, o[k] + 1)
+        bad = gates.validate_trace(ctx, tf, R, what="integration " + prog)
+        if bad:
+            ctx.violation("the repository's %s is not a MachineP behaviour (%s): accepted %d of %d events, at %s" % (prog, bad["violated"], bad["accepted_prefix"], bad["of"], (bad["event"] or "")[:200]), detail=bad, files=[tf])
+        else:
+            ctx.add("integration_program_events", sum(1 for _ in open(tf)))
+
+
 def run(ctx):
     thorough = ctx.tier == "thorough"
     # 1. the model: all gate sequences of any length on R registers (fixpoint), fan-out, in-place updates
@@ -74,6 +109,7 @@ def run(ctx):
             ctx.violation("netlist execution on %s/%s rejected (%s: %s): accepted %d of %d events, at event %s" %
                           (be, kind, bad["violated"] or "no matching action", what, bad["accepted_prefix"], bad["of"], (bad["event"] or "")[:200]), detail=bad, files=[pf, tf])
         ctx.add("gate_evaluations", p.gates)
+    integration(ctx, thorough)
     ctx.sample({"programs": "random(8 regs, 260 gates), chain(70), ripple-carry adder+comparator(4 bits, fed back), mux tree with heavy fan-out, TLC-generated behaviours", "first_ops": p.lines[:10]})
     ctx.assume("acceptance regions: sd <= bound*(1+8/sqrt(2n)), |mean| <= bound/4 + 8*bound/sqrt(n), |error| < 3/64, class variances (fresh/deep/noisy inputs) pairwise within 8 estimator sigma; statistical by nature")
     ctx.assume("bounds: 0.0037 (128-bit), 0.0047 (80-bit), x1.35 for MUX; errors accumulated in units of 2^-14")
